@@ -1169,6 +1169,107 @@ def mon_window(t):
     return out
 
 
+READ_OPS = ("get", "get_ref", "map_get", "map_get_ref")
+WRITE_OPS = ("put", "put_w", "put_ttl", "put_w_ttl", "upsert", "delete")
+MICRO_CHECKS = {"C01": ("accounting",), "C05": ("accounting",), "C07": ("accounting",), "C11": ("accounting",),
+                "C02": ("deleted",), "C04": ("deleted",), "C13": ("flag",), "C15": ("hits",)}
+
+
+def mon_micro(pid, sched, recs):
+    """Monitors for micro schedules (calls stopped at the schedule points inside them, other threads overtaking), on the
+    implementation trace alone:
+      accounting  whenever the worker is not inside a command and the shutdown flag is down: total = sum of the charges >= 0 and
+                  the charged ids are exactly the ids of the stored entries
+      deleted     from the moment delete(k) has passed its `delete.marked` point, no read whose lookup happens afterwards finds k
+                  while the marked entry is still the stored one
+      flag        from the moment shutdown() has raised the flag, every call that begins is refused (writes: error, reads: nothing)
+      hits        while the flag is down: hits = buffered + AccessAdded + AccessDropped + reads stopped between lookup and record"""
+    checks = MICRO_CHECKS.get(pid, ())
+    cfg = full_cfg(sched["cfg"])
+    fails = []
+    at = {}                 # tid -> (op, args, label) of a caller stopped inside a call
+    worker_inside = False
+    marked = {}             # key -> id of the entry that was soft-marked by a delete
+    flag_up = False
+
+    def fail(sig, what, i):
+        fails.append(dict(signature=sig, what=what, name=sched["name"], config=sched["cfg"], events=sched["events"][: i + 1], index=i))
+
+    for i, r in enumerate(recs):
+        if r["skipped"]:
+            continue
+        p = r["ev"].split()
+        ret = r["ret"]
+        snap = r["snap"]
+        stopped = bool(ret) and ret[0] == 7
+        label = ret[1] if stopped and len(ret) > 1 else None
+        began = None            # (op, args) of a call that begins with this event
+        lookup = None           # (key, found) of a single-key read whose store lookup happens in this event
+        if p[0] == "callp":
+            began = (p[2], p[3:])
+            if stopped:
+                at[p[1]] = (p[2], p[3:], label)
+            elif p[2] in READ_OPS and p[2] in ("get", "map_get"):
+                pass
+        elif p[0] == "call" and p[2] not in ("hold_ref", "release_ref"):
+            began = (p[2], p[3:])
+            if p[2] in READ_OPS and ret and ret[0] == 5:
+                lookup = (int(p[3]), len(ret) > 1)
+        elif p[0] == "run" and p[1] in at:
+            op, args, was = at.pop(p[1])
+            if stopped:
+                at[p[1]] = (op, args, label)
+            if was == "call.entered" and op in READ_OPS:
+                # the lookup of a split read: a hit stops at read.hit (get, map_get) or returns the value (get_ref, map_get_ref)
+                lookup = (int(args[0]), label == "read.hit" or (not stopped and bool(ret) and ret[0] == 5 and len(ret) > 1))
+            if label == "delete.marked":
+                k = int(args[0])
+                ent = {e[0]: e for e in snap["store"]}.get(k)
+                if ent is not None:
+                    marked[k] = ent[2]
+        elif p[0] == "workerp" or p[0] == "runw":
+            worker_inside = stopped
+        if label == "shutdown.flag" or snap["shut"] == 1:
+            was_up = flag_up
+            flag_up = True
+        else:
+            was_up = flag_up
+        store = {e[0]: e for e in snap["store"]}
+        for k in list(marked):
+            if k not in store or store[k][2] != marked[k]:
+                del marked[k]
+        if "deleted" in checks and lookup and lookup[1] and lookup[0] in marked:
+            fail("micro-deleted-key-read", "a read of key %d found it although delete(%d) had passed its mark and the marked entry (id %d) is still the stored one" % (lookup[0], lookup[0], marked[lookup[0]]), i)
+        if "flag" in checks and began and was_up and began[0] != "shutdown":
+            op = began[0]
+            ok = True
+            if op in WRITE_OPS:
+                ok = bool(ret) and ret[0] == 2
+            elif op in READ_OPS or op.startswith("multi"):
+                ok = bool(ret) and ret[0] == 5 and all(v == -1 for v in ret[1:])
+            if not ok:
+                fail("micro-call-after-flag-not-refused", "the call '%s %s' began after shutdown() had raised the flag and was answered %s" % (op, " ".join(began[1]), ret), i)
+        if "accounting" in checks and not worker_inside and snap["shut"] == 0 and not flag_up:
+            charges = sum(w[3] for w in snap["weights"])
+            ids_w = sorted(w[0] for w in snap["weights"])
+            ids_s = sorted(e[2] for e in snap["store"])
+            if snap["used"] != charges or snap["used"] < 0 or ids_w != ids_s:
+                fail("micro-accounting-broken", "between commands: total %d, sum of charges %d, charged ids %s, stored ids %s" % (snap["used"], charges, ids_w, ids_s), i)
+        if "hits" in checks and snap["shut"] == 0 and not flag_up:
+            inflight = sum(1 for v in at.values() if v[2] == "read.hit")
+            st = snap["stats"]
+            buffered = sum(len(b) for b in snap["pool"])
+            if (buffered + st[8] + st[9] + inflight) % U64 != st[0] % U64:
+                fail("micro-hit-unaccounted", "hits %d != buffered %d + AccessAdded %d + AccessDropped %d + %d reads between lookup and record" % (st[0], buffered, st[8], st[9], inflight), i)
+    # one failure per signature is enough
+    seen, out = set(), []
+    for f in fails:
+        if f["signature"] not in seen:
+            seen.add(f["signature"])
+            out.append(f)
+    return out
+
+
 def run_monitor(pid, schedules, impl):
     fails = []
     for s in schedules:
@@ -1176,6 +1277,9 @@ def run_monitor(pid, schedules, impl):
         if not recs:
             continue
         try:
+            if full_cfg(s["cfg"]).get("points") == "micro":
+                fails += mon_micro(pid, s, recs)
+                continue
             fails += MONITORS[pid](Trace(s, recs))
         except Exception as e:
             import traceback
